@@ -149,14 +149,18 @@ def orbitMapStep (index : Array (Array Nat)) (map : Array Nat) (m : Array Nat) (
        | none => .panic)
     | _, _ => .panic
 
+/-- one iteration of the nested loops, a panic being sticky -/
+def orbitMapFoldStep (index : Array (Array Nat)) (map : Array Nat) (acc : Outcome (Array Nat))
+    (k : Nat × Nat) : Outcome (Array Nat) :=
+  match acc with
+  | .ok m => orbitMapStep index map m k.1 k.2
+  | o => o
+
 /-- the two nested `for` loops of `orbit_maps` for one automorphism -/
 def orbitMapOf (ds : DSetData) (count : Nat) (index : Array (Array Nat)) (map : Array Nat) :
     Outcome (List Nat) :=
   let keys := (List.range ds.dim).flatMap fun i => (List.range ds.size).map fun d0 => (i, d0 + 1)
-  match keys.foldl (fun (acc : Outcome (Array Nat)) k =>
-      match acc with
-      | .ok m => orbitMapStep index map m k.1 k.2
-      | o => o) (.ok (Array.replicate count 0)) with
+  match keys.foldl (orbitMapFoldStep index map) (.ok (Array.replicate count 0)) with
   | .ok m => .ok m.toList
   | .err => .err
   | .panic => .panic
